@@ -174,9 +174,48 @@ def len_of(t):
     return len_of(t["a"])
 
 
+SCAN = {"rect12": L.P([0.0, 0.0], [1.0, 0.0], [0.0, 2.0]), "rect31": L.P([0.0, 0.0], [3.0, 0.0], [0.0, 1.0]), "SLP": L.SLP, "TSL": L.TSL,
+        "C2": L.C2, "I2": L.I2, "S2": L.S2, "dSLP": L.B(L.SLP), "dC2": L.B(L.C2), "LSH": L.LSH}
+
+
 def items(tier):
     terms = leaves(tier) + composites(tier)
-    return [{"name": tshow(t), "term": t, "tier": tier} for t in terms]
+    out = [{"name": tshow(t), "term": t, "tier": tier} for t in terms]
+    # every requested count: grid and random samplers return exactly n rows for n = 1 .. 60 (thorough 150)
+    for nm in SCAN:
+        out.append({"name": "count-scan|%s" % nm, "scan": nm, "tier": tier, "term": None, "cost": 3})
+    return out
+
+
+def run_scan(item):
+    res = {"evals": 0, "transitions": 0, "states": [], "outcomes": [], "violations": [], "rejected": 0, "samples": [], "traces": 0}
+    a = SCAN[item["scan"]]
+    top = 60 if item["tier"] == "quick" else 150
+    bad = {}
+    for kind in ("grid", "ru"):
+        for n in range(1, top + 1):
+            res["states"].append("%s|%s|n=%d" % (item["scan"], kind, n))
+            res["evals"] += 1
+            res["transitions"] += 1
+            try:
+                with Seam(budget=20000):
+                    smp = (tp.samplers.GridSampler if kind == "grid" else tp.samplers.RandomUniformSampler)(Bd.build_tp(a), n_points=n)
+                    out = smp.sample_points()
+                    ln = len(smp)
+            except Exception as e:
+                if is_deliberate(e):
+                    res["rejected"] += 1
+                    continue
+                bad.setdefault("C02|error|%s|count-scan|%s" % (type(e).__name__, kind), []).append("n=%d: %s" % (n, str(e)[:60]))
+                continue
+            if len(out) != n or ln != n:
+                bad.setdefault("C02|rows|%s|count-scan" % kind, []).append("n=%d -> %d rows (len(sampler)=%d)" % (n, len(out), ln))
+            else:
+                res["outcomes"].append("%s|%s|n=%d" % (item["scan"], kind, n))
+    for key, lst in bad.items():
+        res["violations"].append({"key": key, "what": "%s: %s" % (item["name"], "; ".join(lst[:6])), "detail": {"item": item["name"]}})
+    res["samples"] = [{"scan": item["scan"], "counts": top}]
+    return res
 
 
 # ------------------------------------------------------------------------------------------
@@ -252,6 +291,8 @@ def ref_sample(t, params, leaf_check):
 
 
 def run_item(item):
+    if item.get("scan"):
+        return run_scan(item)
     t, tier = item["term"], item["tier"]
     name = item["name"]
     res = {"evals": 0, "transitions": 0, "states": [], "outcomes": [], "violations": [], "rejected": 0, "samples": [],
